@@ -45,6 +45,19 @@ def flux_mode(ctx, rule, cls="IdealReservoir"):
                 continue
         else:
             ev = evs[0]
+            # the flux samples belong to the simulated time levels: they are integrated over self.time, whatever else
+            # the caller passes (a `time` argument in other units, on another grid)
+            from .common import QUADRATURE as _Q
+
+            xv = ev.data["args"].get(_Q[ev.data["callee"]][1])
+            xkey = ("x", nf.key(it.to_nf(xv)) if xv is not None else None)
+            if xv is not None and xkey not in seen:
+                seen.add(xkey)
+                ctx.check(
+                    it.to_nf(xv) == nf.sym("self.time"), rule, q + ":time axis of the flux integral", f"{m.file}:{ev.line}",
+                    "the rate is integrated over the simulation's own time levels (self.time) on every path",
+                    signature="abscissa " + nf.show(it.to_nf(xv), 60), abscissa=nf.show(it.to_nf(xv), 120), decisions=[("" if c else "not ") + d[:50] for _k, c, d in p.decisions],
+                )
             ykey = nf.key(it.to_nf(ev.data["args"].get("y")))
             if ykey in seen:
                 continue
